@@ -262,24 +262,32 @@ class Spec(EvalableModel):
             c = leaf
             prev_log = list(c.component_modeling_log)
             c.component_modeling_log.clear()
-            if area:
+            # Values that were already calculated hold the scaled result; calculating
+            # them again would apply the scale factors a second time.
+            done = orig._costs_calculated
+            if area and "area" not in done:
                 c = c.calculate_area(models)
                 orig.area = c.area
                 orig.total_area = c.area * global_fanout
-            if energy:
+                done = done | {"area"}
+            if energy and "energy" not in done:
                 c = c.calculate_action_energy(models)
                 for a in c.actions:
                     orig_action = orig.actions[a.name]
                     orig_action.energy = a.energy
-            if throughput:
+                done = done | {"energy"}
+            if throughput and "throughput" not in done:
                 c = c.calculate_action_throughput(models)
                 for a in c.actions:
                     orig_action = orig.actions[a.name]
                     orig_action.throughput = a.throughput
-            if leak:
+                done = done | {"throughput"}
+            if leak and "leak" not in done:
                 c = c.calculate_leak_power(models)
                 orig.leak_power = c.leak_power
                 orig.total_leak_power = c.leak_power * global_fanout
+                done = done | {"leak"}
+            orig._costs_calculated = done
             orig.component_modeling_log = prev_log + c.component_modeling_log
             orig.component_model = c.component_model
 
